@@ -369,7 +369,7 @@ def run(ctx):
     ]
     stats = vlib.Stats()
     run_codec(ctx, stats)
-    nmod = ctx.pick(32, 400)
+    nmod = ctx.pick(48, 500)
     rnd = random.Random(ctx.seed * 86028121 + 9)
     root = os.path.join(ctx.tmp, "c06")
     cases = []
